@@ -48,11 +48,13 @@ G_N3_D3_WF = (3, 3, ALL_KINDS, False, True)
 G_N4_SP_WF = (4, 2, '{"s","p"}', False, True)
 G_N4_SR_WF = (4, 2, '{"s","r"}', False, True)
 G_N2_ALL_ANY = (2, 2, ALL_KINDS, True, False)
-ALL_GEN = [G_N3_ALL_WF, G_N4_S_WF, G_N3_ALL_ANY, G_N2_ALL_ANY, G_N3_D3_WF, G_N4_SP_WF, G_N4_SR_WF]
+G_N4_IP_WF = (4, 2, '{"i","p"}', False, True)
+G_N4_IR_WF = (4, 2, '{"i","r"}', False, True)
+ALL_GEN = [G_N3_ALL_WF, G_N4_S_WF, G_N3_ALL_ANY, G_N2_ALL_ANY, G_N4_IP_WF, G_N4_IR_WF, G_N3_D3_WF, G_N4_SP_WF, G_N4_SR_WF]
 
 
 def pregen(ctx, thorough=False):
-    for a in (ALL_GEN if thorough else ALL_GEN[:4]):
+    for a in (ALL_GEN if thorough else ALL_GEN[:6]):
         p = gen(ctx, *a)
         log('[setup] %s: %d cases' % (os.path.basename(p), vlib.count_lines(p)))
 
@@ -151,6 +153,8 @@ def confirm_crashes(ctx, pairs):
                if o['outcome'] in ('timeout', 'fatal') and not (set(v.get('kf', [])) & listed)]
     if not crashed:
         return pairs
+    # confirm a handful; the others are kept only if every one of those crashed again
+    rest, crashed = crashed[6:], crashed[:6]
     f = ctx.path('confirm.ndjson')
     with open(f, 'w') as w:
         for i, o in crashed:
@@ -163,9 +167,17 @@ def confirm_crashes(ctx, pairs):
     key = lambda o: json.dumps([o['abstract'], o['layout'], o['rot'], o['opts'], o['entry'], o['failurl']], sort_keys=True)
     redo = {key(o): (o, v) for o, v in again}
     out = list(pairs)
+    all_again = True
     for i, o in crashed:
         if key(o) in redo:
             out[i] = redo[key(o)]
+            if redo[key(o)][0]['outcome'] not in ('timeout', 'fatal'):
+                all_again = False
+    if rest and not all_again:
+        # not reproducible alone: the unconfirmed ones are dropped from the judgement (never reported)
+        drop = {i for i, o in rest}
+        out = [p for i, p in enumerate(out) if i not in drop]
+        log('[confirm] %d further crashed cases dropped as unconfirmed' % len(rest))
     return out
 
 
@@ -216,13 +228,18 @@ def s1_batches(ctx, opts, skip_collide=False):
                 Batch(G_N4_S_WF, ALL_LAYOUTS, opts, rots, reps=4, names=sd['names'], spell='varied'),
                 Batch(G_N4_SP_WF, ORDINARY[:3] + COLLIDERS[:2], opts, rots[:1], reps=2, names=sd['names'], spell=sd['spell']),
                 Batch(G_N4_SR_WF, ORDINARY[:3] + COLLIDERS[:2], opts, rots[1:2], reps=2, names='special', spell=sd['spell']),
+                Batch(G_N4_IP_WF, ALL_LAYOUTS, opts, rots[:2], reps=2, names=sd['names'], spell=sd['spell']),
+                Batch(G_N4_IR_WF, ALL_LAYOUTS, opts, rots[2:], reps=2, names='special', spell='varied'),
                 Batch(('random', 14, 4, 3000), [a + '+' + b + '+' + c for a in ORDINARY[:4] for b in ('subdir', 'prefixdir') for c in ('sibling', 'remote')],
                       opts, rots[:1], reps=2, names=sd['names'], spell='varied'),
                 Batch(('random', 24, 5, 600), ['sibling+subdir+parent+otherdir', 'remote+prefixfile+subsub+sibling'], opts, rots[1:2], reps=2,
                       names='special', spell='varied')]
     few = [ALL_LAYOUTS[(ctx.seed + i) % len(ALL_LAYOUTS)] for i in (0, 3, 6)]
+    other = 'plain' if sd['names'] == 'special' else 'special'
     return [Batch(G_N3_ALL_WF, ALL_LAYOUTS, opts, [sd['rot']], reps=3, names=sd['names'], spell=sd['spell']),
-            Batch(G_N4_S_WF, few, opts[:1], [(sd['rot'] + 5) % 12], reps=2, names=sd['names'], spell=sd['spell']),
+            Batch(G_N4_S_WF, few, opts[:1], [(sd['rot'] + 5) % 12], reps=2, names=other, spell=sd['spell']),
+            Batch(G_N4_IP_WF, few[:2], opts[:1], [sd['rot']], reps=1, names=sd['names'], spell=sd['spell']),
+            Batch(G_N4_IR_WF, few[1:], opts[:1], [(sd['rot'] + 1) % 12], reps=1, names=other, spell=sd['spell']),
             Batch(('random', 10, 3, 240), [few[0] + '+' + few[1], few[2] + '+sibling'], opts, [(sd['rot'] + 2) % 12], reps=2,
                   names=sd['names'], spell='varied')]
 
@@ -321,7 +338,9 @@ def check_c08(ctx):
     else:
         batches = [Batch(G_N3_ALL_ANY, [ALL_LAYOUTS[ctx.seed % len(ALL_LAYOUTS)]], modes, [sd['rot']], failsets=('none',),
                          reps=1, names=sd['names'], spell=sd['spell'], allfaults=True),
-                   Batch(G_N3_ALL_WF, ALL_LAYOUTS, ['000', '010'], [(sd['rot'] + 1) % 12], failsets=('none', '1'), reps=1)]
+                   Batch(G_N3_ALL_WF, ALL_LAYOUTS, ['000', '010'], [(sd['rot'] + 1) % 12], failsets=('none', '1'), reps=1),
+                   Batch(G_N4_IP_WF, [ALL_LAYOUTS[(ctx.seed + 2) % len(ALL_LAYOUTS)]], ['000', '010'], [sd['rot']], reps=1),
+                   Batch(G_N4_IR_WF, [ALL_LAYOUTS[(ctx.seed + 5) % len(ALL_LAYOUTS)]], ['000', '100'], [sd['rot']], reps=1)]
         mcs = [(G_N3_ALL_ANY, False, False, 'any_strict_full'), (G_N3_ALL_ANY, True, False, 'any_cont_full')]
     rep = run_batches(ctx, batches, preds, mcs, nontrivial=lambda o, v: v['nbad'] > 0 or len(o['failurl']) > 0,
                       sample=lambda o, v: v['nbad'] > 0)
